@@ -13,6 +13,7 @@ import sys
 sys.path.insert(0, os.path.join(os.path.dirname(os.path.abspath(__file__)), '..'))
 from common import Check
 from harness import solver_toy as T
+from props import t_C04
 from fractions import Fraction as Fr
 
 
@@ -159,7 +160,10 @@ def main():
                'configuration); non-trivial = at least one evaluation; values and shapes compared with the Coq model; oracle = every '
                'value recomputed by hand from the weights / tags the solution is entitled to see')
     ck.step_hygiene()
-    ck.step_prove('P_C06')
+    # regenerate coq/gen/Gen_C04.v from the current solvers.py (fail-closed); P_C06 proves the generated
+    # definitions equal to the model's, so a source change that alters them breaks the proof
+    if t_C04.step_generate(ck):
+        ck.step_prove('P_C06')
     camp = T.Campaign(ck, 'C06', oracle)
     if ck.replay:
         payload = json.load(open(ck.replay))
